@@ -116,13 +116,40 @@ def emit_passes(repo):
                     calls = sorted({ast.unparse(c.func) for b in node.body for c in ast.walk(b) if isinstance(c, ast.Call)})
                     for e in exc_names(h.type):
                         handlers.append((nm, e, calls))
-    out = [HEADER.format(src='asm.py (assemble: order of the passes; exception handlers of the pass functions)')]
+    # the label updates of the size-changing passes: {k: v - D for k, v in labels.items() if v OP position} ; labels.update(..)
+    updates = []
+    for nm in dict.fromkeys(o[0] for o in order):
+        for node in ast.walk(fns[nm]):
+            if isinstance(node, ast.DictComp):
+                g = node.generators
+                ok = (len(g) == 1 and not g[0].is_async and isinstance(g[0].target, ast.Tuple) and len(g[0].target.elts) == 2
+                      and all(isinstance(e, ast.Name) for e in g[0].target.elts)
+                      and ast.unparse(g[0].iter) == 'labels.items()' and len(g[0].ifs) == 1)
+                if not ok:
+                    fail(node, 'dictionary comprehension in a pass')
+                kn, vn = g[0].target.elts[0].id, g[0].target.elts[1].id
+                cond = g[0].ifs[0]
+                if not (isinstance(cond, ast.Compare) and len(cond.ops) == 1 and isinstance(cond.left, ast.Name) and cond.left.id == vn
+                        and isinstance(cond.comparators[0], ast.Name) and cond.comparators[0].id == 'position'):
+                    fail(node, 'label update condition must compare the label value with position')
+                op = {ast.Gt: '>', ast.GtE: '>=', ast.Lt: '<', ast.LtE: '<=', ast.Eq: '==', ast.NotEq: '!='}.get(type(cond.ops[0]))
+                if op is None:
+                    fail(node, 'comparison operator')
+                if not (isinstance(node.key, ast.Name) and node.key.id == kn and isinstance(node.value, ast.BinOp)
+                        and isinstance(node.value.op, ast.Sub) and isinstance(node.value.left, ast.Name) and node.value.left.id == vn):
+                    fail(node, 'label update must be {k: v - D ...}')
+                updates.append((nm, op, ast.unparse(node.value.right)))
+    # every such comprehension must be applied with labels.update(<that variable>)
+    out = [HEADER.format(src='asm.py (assemble: order of the passes; exception handlers and label updates of the pass functions)')]
     out.append('(* (pass function, further arguments after `items`, only when compress) in the order of asm.assemble *)')
     out.append('Definition pass_order : list (string * list string * bool) :=\n  [{}].\n'.format(';\n   '.join(
         '({}, [{}], {})'.format(slit(n), '; '.join(slit(a or '?') for a in args), 'true' if g else 'false') for n, args, g in order)))
     out.append('(* (pass function, exception converted into AssemblerError(..., item.line), calls inside the try body) *)')
     out.append('Definition handlers : list (string * string * list string) :=\n  [{}].\n'.format(';\n   '.join(
         '({}, {}, [{}])'.format(slit(n), slit(e), '; '.join(slit(c) for c in calls)) for n, e, calls in handlers)))
+    out.append('(* (pass function, comparison of the label value with `position`, amount subtracted) of every label update *)')
+    out.append('Definition label_updates : list (string * string * string) :=\n  [{}].\n'.format(';\n   '.join(
+        '({}, {}, {})'.format(slit(n), slit(o), slit(d)) for n, o, d in updates)))
     out.append('Definition converts (pass exc call : string) : bool :=\n'
                '  existsb (fun h => String.eqb (fst (fst h)) pass && String.eqb (snd (fst h)) exc && mem_str call (snd h)) handlers.\n')
     return '\n'.join(out)
